@@ -10,7 +10,33 @@ import (
 )
 
 func genIP6(r *Rng) net.IP {
-	switch r.Intn(6) {
+	switch r.Intn(8) {
+	case 6:
+		// the address forms code distinguishes with To4 / IsLoopback / IsMulticast /
+		// Is...: IPv4-mapped (::ffff:a.b.c.d - To4() != nil for a 16-byte address),
+		// IPv4-compatible, loopback, multicast, site/unique local, documentation, all ones
+		// (seeded change C06-13: a guard written with To4 zeroing IPv4-mapped addresses)
+		ip := make(net.IP, 16)
+		switch r.Intn(8) {
+		case 0, 1, 2:
+			ip[10], ip[11] = 0xff, 0xff
+			copy(ip[12:], r.Bytes(4))
+		case 3:
+			copy(ip[12:], r.Bytes(4))
+		case 4:
+			ip[15] = 1
+		case 5:
+			ip[0], ip[1], ip[15] = 0xff, 0x02, byte(r.Pick([]int{1, 2, 0xfb}))
+		case 6:
+			ip[0] = byte(r.Pick([]int{0xfc, 0xfd, 0xfe}))
+			ip[1] = 0xc0
+			copy(ip[8:], r.Bytes(8))
+		default:
+			for i := range ip {
+				ip[i] = 0xff
+			}
+		}
+		return ip
 	case 0:
 		return net.IPv6zero
 	case 1:
@@ -414,6 +440,14 @@ func genMsg6(r *Rng, depth int, loose bool) dhcpv6.DHCPv6 {
 			rm.Options.Options = append(rm.Options.Options, genOpt6(r, r.Pick([]int{18, 37, 79, 135, 300}), 0, loose))
 		}
 		rm.Options.Options = append(rm.Options.Options, dhcpv6.OptRelayMessage(genMsg6(r, depth-1, loose)))
+		if r.Chance(1, 12) {
+			// several relay-message options side by side (nothing forbids it on the wire and
+			// the decoder keeps them all): whatever counts relay messages must count NESTING,
+			// not siblings (seeded change C02-13)
+			for k := r.Range(1, 19); k > 0; k-- {
+				rm.Options.Options = append(rm.Options.Options, dhcpv6.OptRelayMessage(genMsg6(r, min(depth-1, 1), loose)))
+			}
+		}
 		if r.Chance(1, 3) {
 			rm.Options.Options = append(rm.Options.Options, genOpt6(r, r.Pick([]int{18, 37}), 0, loose))
 		}
@@ -437,6 +471,17 @@ func genMsg6(r *Rng, depth int, loose bool) dhcpv6.DHCPv6 {
 			code = 14
 		}
 		m.Options.Options = append(m.Options.Options, genOpt6(r, code, min(depth, 2), loose))
+	}
+	if r.Chance(1, 25) {
+		// a message well beyond one Ethernet frame (1500) and beyond 4096: an opaque option
+		// of a few thousand bytes in front of, between or behind the others, so that
+		// whatever buffer an encoder or decoder sizes by guess has to grow while it is in
+		// the middle of a container (seeded change C06-14)
+		big := &dhcpv6.OptionGeneric{OptionCode: 4243, OptionData: r.Bytes(r.Pick([]int{1400, 1490, 1500, 2000, 4090, 4096, 5000, 9000}))}
+		at := r.Intn(len(m.Options.Options) + 1)
+		os := append(dhcpv6.Options{}, m.Options.Options[:at]...)
+		os = append(os, big)
+		m.Options.Options = append(os, m.Options.Options[at:]...)
 	}
 	return m
 }
@@ -516,6 +561,7 @@ func genReframedPair6(r *Rng) (bad, good []byte) {
 
 // tlvNode6 is one option found in a datagram at any nesting level.
 type tlvNode6 struct {
+	code                   int
 	lenOff, valOff, valLen int
 	anc                    []int // offsets of the length fields of the enclosing options, outermost first
 }
@@ -534,7 +580,7 @@ func tlvTree6(b []byte) []tlvNode6 {
 			if i+4+l > hi {
 				return
 			}
-			n := tlvNode6{lenOff: i + 2, valOff: i + 4, valLen: l, anc: append([]int{}, anc...)}
+			n := tlvNode6{code: c, lenOff: i + 2, valOff: i + 4, valLen: l, anc: append([]int{}, anc...)}
 			out = append(out, n)
 			sub := append(append([]int{}, anc...), i+2)
 			hdr := map[int]int{3: 12, 4: 4, 5: 24, 25: 12, 26: 25, 17: 4, 56: 0, 97: 0}
@@ -644,8 +690,71 @@ func genResized6(r *Rng) []byte {
 	return out
 }
 
+// genAddrPatched6: an encoded message in which address fields - relay link and peer
+// addresses at every level, IA addresses, IA prefixes, DNS and DHCP4o6 server lists -
+// are overwritten ON THE WIRE with the address forms code tells apart (IPv4-mapped,
+// IPv4-compatible, loopback, multicast, unique local, all ones, unspecified).  The
+// bytes do not come out of the library's encoder, so an encoder that mistreats one
+// of these forms cannot keep it out of the decoder's and the fixpoint's inputs
+// (seeded change C06-13 was invisible to inputs produced by the changed encoder).
+func genAddrPatched6(r *Rng) []byte {
+	b := genMsg6(r, r.Range(0, 2), false).ToBytes()
+	var slots []int
+	hdr := func(at, n int) {
+		if n >= 34 && at < len(b) && (b[at] == 12 || b[at] == 13) {
+			slots = append(slots, at+2, at+18)
+		}
+	}
+	hdr(0, len(b))
+	for _, n := range tlvTree6(b) {
+		switch n.code {
+		case 9:
+			hdr(n.valOff, n.valLen)
+		case 5:
+			if n.valLen >= 24 {
+				slots = append(slots, n.valOff)
+			}
+		case 26:
+			if n.valLen >= 25 {
+				slots = append(slots, n.valOff+9)
+			}
+		case 23, 88:
+			for o := 0; o+16 <= n.valLen; o += 16 {
+				slots = append(slots, n.valOff+o)
+			}
+		}
+	}
+	for _, at := range slots {
+		if at+16 > len(b) || !r.Chance(2, 3) {
+			continue
+		}
+		ip := make([]byte, 16)
+		switch r.Intn(8) {
+		case 0, 1, 2, 3:
+			ip[10], ip[11] = 0xff, 0xff
+			copy(ip[12:], r.Bytes(4))
+		case 4:
+			copy(ip[12:], r.Bytes(4))
+		case 5:
+			ip[15] = 1
+		case 6:
+			ip[0], ip[1], ip[15] = 0xff, 0x02, 1
+		default:
+			for i := range ip {
+				ip[i] = 0xff
+			}
+		}
+		copy(b[at:], ip)
+	}
+	return b
+}
+
 func genWire6(r *Rng) ([]byte, string) {
-	switch r.Intn(17) {
+	switch r.Intn(19) {
+	case 17:
+		return genAddrPatched6(r), "address-patched"
+	case 18:
+		return r.Bytes(r.Pick([]int{0, 1, 3, 4, 5, 33, 34, 35, 40})), "random"
 	case 14, 15, 16:
 		return genResized6(r), "value-resized-reframed"
 	case 12, 13:
@@ -686,6 +795,33 @@ func genWire6(r *Rng) ([]byte, string) {
 			b[i] = byte(r.Intn(256))
 		}
 		return b, "byte-perturbed"
+	case 11:
+		// text where the wire format of a name is expected: a dotted ASCII host name (with
+		// or without a trailing dot or NUL) in the fields that hold RFC 1035 names - domain
+		// search list 24, client FQDN 39 (behind its flags octet), NTP server FQDN
+		// sub-option 56/3 - the way DHCPv4 options carry names; not a name list on the wire
+		// (seeded change C05-13: the FQDN option accepting such text)
+		name := []byte([]string{"host.example.com", "a.b", "printer-07.lab.example.org.", "x_y.z-1.test", "example.com\x00", "www.example.co.uk"}[r.Intn(6)])
+		b := []byte{byte(r.Range(1, 11)), 1, 2, 3}
+		if r.Chance(1, 3) {
+			o := genOpt6(r, r.Pick([]int{1, 3, 8, 23}), 1, false)
+			b = append(b, byte(o.Code()>>8), byte(o.Code()))
+			v := o.ToBytes()
+			b = append(b, byte(len(v)>>8), byte(len(v)))
+			b = append(b, v...)
+		}
+		switch r.Intn(3) {
+		case 0:
+			b = append(b, 0, 24, 0, byte(len(name)))
+			b = append(b, name...)
+		case 1:
+			b = append(b, 0, 39, 0, byte(len(name)+1), byte(r.Intn(8)))
+			b = append(b, name...)
+		default:
+			b = append(b, 0, 56, 0, byte(len(name)+4), 0, 3, 0, byte(len(name)))
+			b = append(b, name...)
+		}
+		return b, "ascii-name-in-label-field"
 	case 10:
 		// hand-laid: header + raw TLVs with random known codes and short random payloads
 		b := []byte{byte(r.Range(1, 11)), 1, 2, 3}
